@@ -149,7 +149,12 @@ pub fn inject_text(v: &mut Value, rng: &mut crate::rng::Rng, count: &mut usize) 
     match v {
         Value::String(s) => {
             if s.starts_with('^') && s.len() > 1 && rng.chance(1, 3) {
-                *s = format!("^{} {}", &s[1..], rng.pick(HOSTILE));
+                if rng.chance(1, 4) {
+                    // text that itself begins with the character used as the text marker
+                    *s = format!("^{}{}", rng.pick(&["^_^ ", "^", "^^ ", "^ caret "]), &s[1..]);
+                } else {
+                    *s = format!("^{} {}", &s[1..], rng.pick(HOSTILE));
+                }
                 *count += 1;
             }
         }
